@@ -93,10 +93,15 @@ static void usage(void)
  */
 static char *replace_str(char *str, char *orig, char *rep)
 {
-  static char buffer[1024];
+  char *buffer;
   char *p;
 
   if(!(p = strstr(str, orig)))
+    return str;
+
+  /* the string can have any length (it is a command line argument) */
+  buffer = malloc(strlen(str) + strlen(rep) + 1);
+  if (buffer == NULL)
     return str;
 
   strncpy(buffer, str, p-str);
